@@ -66,4 +66,6 @@ Tampered(blob, op) ==
       [] op.k = "set" -> [blob EXCEPT ![op.pos] = IF @[1] = "h" THEN <<"h", op.val>> ELSE <<"x", op.pos>>]
       [] op.k = "trunc" -> SubSeq(blob, 1, op.len)
       [] op.k = "ext" -> blob \o [i \in 1..op.n |-> <<"x", 10000 + i>>]
+      \* n foreign bytes inserted behind the first op.pos bytes (with a header edit: a field that "grows" while the rest lines up)
+      [] op.k = "splice" -> SubSeq(blob, 1, op.pos) \o [i \in 1..op.n |-> <<"x", 20000 + i>>] \o SubSeq(blob, op.pos + 1, Len(blob))
 =============================================================================
